@@ -96,7 +96,7 @@ m = {
   "guard": "--cfg vigna_sux_rs_verif",
   "enable": "harness/.cargo/config.toml passes rustflags --cfg vigna_sux_rs_verif (and -C target-cpu=native, as /repo/.cargo/config.toml does); sux is a path dependency on /repo, so every check rebuilds from /repo's working tree",
   "baseline_off_cmd": "cd /repo && cargo test --workspace --no-fail-fast --offline",
-  "source_commits": ["e884b22"],
+  "source_commits": ["e884b22", "2403130"],
   "add_only": True,
  },
  "engines": [
